@@ -179,7 +179,11 @@ def write_evidence(pid, tier, mod, stages, wall, nviol, known_seen):
     with open(tmp, "w") as fh:
         json.dump(ev, fh, indent=1, sort_keys=False)
     os.replace(tmp, path)
-    validate_evidence(path)
+    try:
+        validate_evidence(path)
+    except core.HarnessError:
+        if not nviol:
+            raise     # with violations reported the verdict stands even if (e.g.) nothing non-trivial was left to count
 
 
 def validate_evidence(path):
